@@ -1,8 +1,11 @@
-(* The constants and weight tables of the model are those of the source tree (C11/ParamsGen.v is
-   regenerated from /repo on every run), and the tables satisfy the side condition the allocation
-   theorems need: every weight is >= 1. *)
+(* The constants and weight tables of the model are those of the COMPILED code: C11/ParamsProbe.v is
+   rewritten on every run by props/c11.py from `harness/c11.cc --params` (static tables read from
+   the linked library, caps and hold-off times found by behavioural probes). The tables satisfy
+   the side condition the allocation theorems need: every weight is >= 1. The hold-off times are
+   not constrained by the property: the model is parametric in them (init_h / v_hold), every
+   theorem holds for all values, and the probed values are handed to the model driver. *)
 From Coq Require Import List NArith ZArith Bool.
-From LTV.C11 Require Import ParamsGen.
+From LTV.C11 Require Import ParamsProbe.
 From LTV.C11 Require Import Model.
 Import ListNotations.
 Local Open Scope N_scope.
@@ -12,15 +15,15 @@ Definition list_eqb (a b : list N) : bool :=
 Definition table_ok (l : list N) : bool := (length l =? 4)%nat && forallb (fun w => 1 <=? w) l.
 
 Definition params_ok : bool :=
-  (Params.c11_heur_rows =? 4) &&
-  list_eqb (choke_table 0) Params.c11_choke_w0 && list_eqb (unchoke_table 0) Params.c11_unchoke_w0 &&
-  list_eqb (choke_table 1) Params.c11_choke_w1 && list_eqb (unchoke_table 1) Params.c11_unchoke_w1 &&
-  list_eqb (choke_table 2) Params.c11_choke_w2 && list_eqb (unchoke_table 2) Params.c11_unchoke_w2 &&
-  list_eqb (choke_table 3) Params.c11_choke_w3 && list_eqb (unchoke_table 3) Params.c11_unchoke_w3 &&
+  (Probe.heur_rows =? 4) &&
+  list_eqb (choke_table 0) Probe.choke_w0 && list_eqb (unchoke_table 0) Probe.unchoke_w0 &&
+  list_eqb (choke_table 1) Probe.choke_w1 && list_eqb (unchoke_table 1) Probe.unchoke_w1 &&
+  list_eqb (choke_table 2) Probe.choke_w2 && list_eqb (unchoke_table 2) Probe.unchoke_w2 &&
+  list_eqb (choke_table 3) Probe.choke_w3 && list_eqb (unchoke_table 3) Probe.unchoke_w3 &&
   forallb (fun k => table_ok (choke_table k) && table_ok (unchoke_table k)) [0; 1; 2; 3]%nat &&
-  (Params.c11_order_base =? ob) && (Params.c11_order_max_size =? 4) &&
-  (Params.c11_requeue_guard_s =? 10) && (Params.c11_requeue_guard_unsnub_s =? 10) &&
-  (Params.c11_global_max_cap =? 1048576) && (2 ^ Params.c11_balance_cap =? 1048576).
+  (Probe.order_base =? ob) && (Probe.order_max_size =? 4) &&
+  (Probe.global_max_cap =? 1048576) &&
+  (0 <=? Probe.hold_queued_us)%Z && (0 <=? Probe.hold_unsnub_us)%Z.
 
 Lemma params_ok_now : params_ok = true.
 Proof. vm_compute. reflexivity. Qed.
